@@ -46,12 +46,19 @@ type qinfo struct {
 type script struct {
 	steps []step
 	qs    []qinfo
+	// late: the gatekeeper opens each gate only once nothing else can run, so
+	// that every call stays unreturned as long as possible (the early keeper
+	// opens gates at an arbitrary scheduling point, by default at once)
+	late bool
 }
 
 var modeNames = map[int]string{rpcsim.ModeReturn: "ret", rpcsim.ModeAckGate: "ack+gate", rpcsim.ModeCap: "cap", rpcsim.ModeError: "error", rpcsim.ModeGate: "gate"}
 
 func (s script) String() string {
 	var parts []string
+	if s.late {
+		parts = append(parts, "[late gates]")
+	}
 	for _, st := range s.steps {
 		switch st.kind {
 		case 'B':
@@ -146,6 +153,21 @@ func scripts(maxLen int, modes []int) []script {
 		}
 	}
 	rec(script{}, map[int]bool{})
+	// every script with a gated call also runs with the late gatekeeper
+	n := len(out)
+	for i := 0; i < n; i++ {
+		gatedCall := false
+		for _, qi := range out[i].qs {
+			if !qi.boot && qi.mode != rpcsim.ModeReturn {
+				gatedCall = true
+			}
+		}
+		if gatedCall {
+			l := out[i]
+			l.late = true
+			out = append(out, l)
+		}
+	}
 	return out
 }
 
@@ -177,7 +199,11 @@ func runScript(sc script, out *outcome) {
 	}
 	vsched.GoNamed("keeper", func() {
 		for _, id := range gated {
-			vsched.Point("open-gate")
+			if sc.late {
+				vsched.WaitQuiescent()
+			} else {
+				vsched.Point("open-gate")
+			}
 			s.W.Gate[id] = true
 		}
 		keeperDone = true
